@@ -23,6 +23,7 @@ SHAPES = [(i, j) for i in range(3) for j in range(3)]
 def sig():
     s = [("e", "Box('f%d%d', %d, %d, sym('f%d%d', %d))" % (i, j, i, j, i, j, j)) for i, j in SHAPES]
     s += [("e", "SWAP"), ("e", "COPY"), ("e", "DISCARD")]
+    s += [("e", "Box('none', 1, 1, lambda x: None)"), ("e", "Box('pair', 1, 2, lambda x: (None, x))")]
     return s
 
 
@@ -45,6 +46,10 @@ def machine(d, inputs):
             outs = ()
         elif name == "add":
             outs = (args[0] + args[1],)
+        elif name == "none":
+            outs = (None,)
+        elif name == "pair":
+            outs = (None, args[0])
         else:
             outs = sym_apply(name, n_out, args)
         wires[off:off + n_in] = list(outs)
@@ -65,6 +70,9 @@ def check_diagram(params):
     d = build.build(recipe)
     n_in, n_out = len(d.dom), len(d.cod)
     inputs = tuple("i%d" % k for k in range(n_in))
+    if params.get("none_input") is not None and n_in:
+        k0 = params["none_input"] % n_in
+        inputs = inputs[:k0] + (None,) + inputs[k0 + 1:]      # None is a legitimate input value
     out = []
     want = conv(machine(d, inputs), n_out)
     try:
@@ -203,6 +211,7 @@ def run(ctx):
     ctx.assumptions = ["box functions return injective symbolic strings, never tuples (the library's "
                        "tuple-or-single-value convention cannot tell a tuple value from two wires)"]
     items = [("diagram", dict(recipe=r)) for r in uni]
+    items += [("diagram", dict(recipe=r, none_input=i)) for i, r in enumerate(uni) if r[1] and len(r[2]) <= 2]
     m = 4 if ctx.quick else 6
     for l in range(m + 1):
         for r in range(m + 1):
